@@ -228,6 +228,24 @@ def run_generated_case(case):
             finally:
                 signal.alarm(0)
             out['res'].append(r)
+        # one long-lived parser object must behave like fresh ones, whatever was parsed (or failed) on it before
+        if case.get('reuse', True):
+            shared = cls()
+            variants = [dict(settings), {}, {'nameguard': False}, {'ignorecase': True}, dict(settings)]
+            bad = []
+            signal.alarm(case.get('timeout', 20) * 3)
+            try:
+                for text in case['texts'][:14]:
+                    for kw in variants:
+                        a = outcome(lambda: shared.parse(text, start=start, **kw))
+                        b = outcome(lambda: cls().parse(text, start=start, **kw))
+                        if (a['k'], a.get('v')) != (b['k'], b.get('v')) and len(bad) < 3:
+                            bad.append({'text': text, 'settings': kw, 'reused_object': a, 'fresh_object': b})
+            except _Timeout:
+                bad.append({'timeout': True})
+            finally:
+                signal.alarm(0)
+            out['reuse_mismatch'] = bad
     finally:
         signal.alarm(0)
     return out
